@@ -55,6 +55,14 @@ def main():
                 if got != base:
                     k = next((i for i, (a, b) in enumerate(zip(got, base)) if a != b), min(len(got), len(base)))
                     mismatches.append({"config": cfg, "detail": f"{len(got)} vs {len(base)} entries, first difference at {k}"})
+    # chunk_size=0 with workers: the real pool refuses it (the guard of C11_workers; model: TrnErr.badChunk)
+    cfg = {"processes": 1, "chunk_size": 0, "via": "path"}
+    configs.append(cfg)
+    try:
+        d.read_trn(path, False, 1, 0)
+        mismatches.append({"config": cfg, "detail": "chunk_size=0 with a worker did not raise"})
+    except ValueError:
+        pass
     expected = [{"utt": u, "t": [c11.canon_item(x) for x in t]} for u, t in
                 ((u, [x[0] if isinstance(x, tuple) and isinstance(x[0], str) else x for x in t]) for u, t in transcripts)]
     if base != expected:
